@@ -6,7 +6,7 @@ ID = 'C10'
 LEVEL = 'exploration'
 RULE = ('cover problems as in C09 (all predicates over the grids of <= 8 points except 0..7 and -2..1x0..1 in the quick tier, '
         'a spread sample of 128 of each 16-point grid and EVERY cyclic-core '
-        'instance over four 0..1 variables, and a twelfth (thorough: all) of the 32-point branch-and-bound corpus of C09; thorough: all 65535 of each); cover_enum.minimize must '
+        'instance over four 0..1 variables, a committed corpus of 98 32-point instances covering every observed shape of the exhaustive search with a pruned branch (thorough: also the 396-instance corpus of C09); thorough: all 65535 of each); cover_enum.minimize must '
         'terminate without error and its set of BDDs, read out to a set of '
         'sets of boxes, must EQUAL the set of all minimum-cardinality prime '
         'covers found by exhaustive set-cover search; contains the cover of '
@@ -23,25 +23,50 @@ def shards(tier, seed):
     if tier == 'thorough':
         # a quarter of C09's seed-indexed 32-point instances: the
         # enumeration takes up to 30 CPU-seconds on one of them
-        return c09.shards(tier, seed, large=6000)
+        return c09.shards(tier, seed, large=6000) + _enum_shards()
     out = c09.shards(tier, seed, spread=128, cyclic_grids=['b4'],
                      small=['b1', 'b2', 'b3', 'g4', 's4', 'n4', 'g42', 'n42'],
                      large=320)
-    # the enumeration takes seconds on the 32-point instances of the
-    # branch-and-bound corpus: quick runs 1 of every 12, seed-rotated
-    # (thorough: all)
-    res = []
-    for sh in out:
-        if 'corpus' in sh:
-            lo = sh['corpus'][0] + seed % 12
-            sh = dict(sh, corpus=[lo, min(lo + 1, sh['corpus'][1])])
-        res.append(sh)
-    return res
+    # the enumeration takes seconds on the 32-point instances of C09's
+    # branch-and-bound corpus: the quick tier leaves them to the thorough
+    # tier and runs the enumeration's own corpus instead
+    return [sh for sh in out if 'corpus' not in sh] + _enum_shards()
+
+
+def _enum_shards():
+    nc = len(_enum_corpus())
+    return [dict(enum_corpus=[i, min(i + 2, nc)], backend='cudd')
+            for i in range(0, nc, 2)]
+
+
+_ENUM = None
+
+
+def _enum_corpus():
+    """32-point instances selected (on the pinned tree) by the shape of
+    the exhaustive search of `cover_enum` (sequence of cyclic-core /
+    traverse / branch / terminal / prune events): one instance per
+    observed shape that contains a pruned branch, plus the 40 shortest
+    other shapes."""
+    global _ENUM
+    if _ENUM is None:
+        import json
+        import os
+        p = os.path.join(os.path.dirname(os.path.dirname(
+            os.path.abspath(__file__))), 'data', 'c10_enum_corpus.json')
+        _ENUM = json.load(open(p))
+    return _ENUM
 
 
 def cases(shard):
     if shard.get('extra'):
         yield from EXTRA + c09.EXTRA
+        return
+    if 'enum_corpus' in shard:
+        for shape, g, m, order in _enum_corpus()[slice(*shard['enum_corpus'])]:
+            full = (1 << len(cv.space_of(g))) - 1
+            yield dict(grid=g, f=m, care=full, care_name='TRUE',
+                       backend=shard['backend'], order=order)
         return
     yield from c09.cases(shard)
 
